@@ -2,7 +2,7 @@
 import ast
 from vlib.model import AnalysisError, dump, kwarg, call_name
 from vlib.cfg import cfg_of, node_calls
-from vlib.flow import Explorer, states_at, count_paths
+from vlib.flow import Explorer, states_at, count_paths, dominators, reachable_avoiding
 from vlib import prov, q, shape, spec
 
 META = {
@@ -203,6 +203,22 @@ def check(ck):
                                                 "; ".join("%s(%s)" % (a, ", ".join(b)) for (a, b) in sync_sigs)),
                    q.loc(fi, n))
     ck.floor("C04.4", 2)
+    # the callee of each dispatch matches the guard it sits under: the custom dispatch function is used where it is known to be
+    # given (`dispatch_method is not None`), the default _dispatch otherwise - in the pooled and in the synchronous branch alike
+    dpar = fi.params[2] if len(fi.params) > 2 else "dispatch_method"
+    dom4 = dominators(g)
+    for i, (kind, c) in events.items():
+        n = g.nodes[i]
+        callee = dump(c.args[0]) if kind == "enqueue" and c.args else dump(c.func)
+        uses_custom = callee == dpar
+        pol = [(p_ if dump(t_) == "%s is not None" % dpar else (not p_))
+               for (t_, p_) in q.guards_of(g, n, dom4) if dump(t_) in ("%s is not None" % dpar, "%s is None" % dpar)]
+        okk = bool(pol) and all(p_ is uses_custom for p_ in pol)
+        ck.require(okk, "C04.4", "%s: %s of `%s` under the matching guard" % (where, "enqueue" if kind == "enqueue" else "call", callee),
+                   "custom dispatcher iff `%s is not None`" % dpar,
+                   "`%s` is %s on the path where `%s` is %s: a custom dispatch function is ignored, or None is called / queued as the task of a "
+                   "notification (which is then never executed)" % (callee, "queued" if kind == "enqueue" else "called", dpar,
+                                                                    "None" if uses_custom else "given" if pol else "not tested"), q.loc(fi, n))
     # method / params provenance of the dispatch arguments
     for i, (kind, c) in events.items():
         n = g.nodes[i]
@@ -217,7 +233,7 @@ def check(ck):
                            q.loc(fi, n))
 
     # ---- C04.6 a validated entry always reaches the single dispatch ------------------------------------------------------
-    from vlib.flow import dominators, reachable_avoiding
+    pass
     fu = prog.func(SRV, DISP + "._unmarshaled_dispatch")
     gu = cfg_of(fu)
     singles = [n for (n, c) in q.call_sites(prog, fu, lambda r, c: q.is_func(r, "%s.%s._marshaled_single_dispatch" % (SRV, DISP)))]
